@@ -685,7 +685,7 @@ def run(ctx):
     tstate = {}
     tthread = None
     if on("traces"):
-        ntr = 480 if q else 2400
+        ntr = 360 if q else 1500
         traces = record_traces(ctx.seed * 7919 + 11, ntr, 60 if q else 140)
 
         def _bg():
